@@ -377,6 +377,13 @@ def oracle_C14(inp):
             a.get_with(**{ks[-1]: None})
             a.get_with(key=ks[0], value=None)
             a.get_with(**{ks[-1]: None, "nosuchkey": None})
+        if a:      # optional ('~') values for keys the Sid holds, through every way of building the Sid
+            ks = list(a.fields.keys())
+            for k in (ks[0], ks[-1], ks[len(ks) // 2]):
+                for x in (a, Sid(a.uri), Sid(fields=a.fields)):
+                    x.get_with(query="%s=~zz9" % k)
+                    x.get_with(query="%s=~*" % k)
+                    Sid(x.uri + "?%s=~zz9" % k)
         p = a.parent
         pf = p.fields
         pf.clear()
@@ -408,6 +415,14 @@ def oracle_C14(inp):
     after2 = (str(again), again.type, list(again.fields.items()), again.uri, hash(again))
     if before != after or before != after2:
         out.append("Sid %r changed after operations: %r -> %r / %r" % (inp["a"], before, after, after2))
+    if a:      # ... and the same through its uri and its fields (other cache entries, same Sid)
+        z = Sid(a.uri)
+        obs = (str(z), z.type, list(z.fields.items()), z.uri)
+        if obs != (before[0], before[1], before[2], before[3]):
+            out.append("Sid %r rebuilt from its uri after the operations is %r, was %r" % (inp["a"], obs, before[:4]))
+        z = Sid(fields=dict(before[2]))      # (from fields the type is re-detected: string and fields are what must hold)
+        if z and (str(z), list(z.fields.items())) != (before[0], before[2]):
+            out.append("Sid %r rebuilt from its fields after the operations is %r, was %r" % (inp["a"], (str(z), list(z.fields.items())), (before[0], before[2])))
     return out
 
 
